@@ -91,17 +91,27 @@ def run_vh_shards(sub, shards, base_args, wd, timeout, seed, extra_env=None):
         procs.append((subprocess.Popen(cmd, stdout=errf, stderr=errf, env=env), out, errf, i))
     reports = []
     deadline = time.time() + timeout
+
+    def kill_all():
+        for q, _, f, _ in procs:
+            if q.poll() is None:
+                q.kill()
+                q.wait()
+            try:
+                f.close()
+            except Exception:
+                pass
+
     for p, out, errf, i in procs:
         try:
             p.wait(timeout=max(1, deadline - time.time()))
         except subprocess.TimeoutExpired:
-            p.kill()
-            p.wait()
-            errf.close()
+            kill_all()
             raise Inconclusive("vh %s shard %d exceeded the %ds watchdog" % (sub, i, timeout))
         errf.close()
         if p.returncode != 0 or not os.path.exists(out):
             tail = open(os.path.join(wd, "err_%d.log" % i)).read()[-3000:]
+            kill_all()
             raise Inconclusive("vh %s shard %d failed (exit %s): %s" % (sub, i, p.returncode, tail))
         reports.append(json.load(open(out)))
     return reports
@@ -215,6 +225,7 @@ class Outcome:
             json.dump(ev, f, indent=1, default=str)
         for sig, v in listed:
             print("KNOWN-FINDING: property=%s %s (observed %d times)" % (self.pid, sig, v["count"]), flush=True)
+        shutil.rmtree(os.path.join(REPLAYS, self.pid), ignore_errors=True)
         if new:
             os.makedirs(os.path.join(REPLAYS, self.pid), exist_ok=True)
             for i, (sig, v) in enumerate(new):
